@@ -40,6 +40,14 @@ def run_property(pid, tier, seed=0, only=None, quiet=False):
         mod = importlib.import_module(f"sa.rules.{pid.lower()}")
         mod.run(chk, ctx)
         chk.taint(ctx.model.tainted)
+        chk.extra["normalisation"] = {
+            "helpers_inlined": sorted({f"{r}:{f}<-{h}" for r, f, h in repo.inlined_helpers}),
+            "conditional_locals_split": sorted({f"{r}:{f}:{x}" for r, f, x in repo.split_locals}),
+            "block_locals_substituted": sorted({f"{f}:{x}" for f, x in repo.substituted_locals}),
+            "properties_expanded": sorted({f"{r}:{c}.{f}" for r, c, f, n in repo.expanded_properties}),
+            "properties_synthesised": sorted({f"{r}:{c}.{f}" for r, c, f in repo.synthesised_properties})}
+        if ctx.model.tainted:
+            chk.extra["tainted_functions"] = {k: [f"line {l}: {t}" for l, t in v] for k, v in ctx.model.tainted.items()}
         if tier == "thorough" and ctx.model.used_generators():
             # second cover of the state space: one generator run per boundary cell of the configuration
             # (every finite-domain attribute split, integer attributes split at lowest / lowest+1 / rest).
